@@ -303,6 +303,11 @@ def model_lines(case, built):
             lines.append(f"qcow2.stream {a} {len(tk)} " + " ".join(tk) + " " + toks)
         else:
             lines.append(f"qcow2.snap {a} {case['view'] - 1} {len(tk)} " + " ".join(tk) + " " + toks)
+        # inside the hypotheses of `qcow2_stream_correct` (active view) / `snapshot_view_independent` (snapshot view)?
+        if case["view"] == 0:
+            lines.append(f"qcow2.open {a} " + " ".join(tk))
+        else:
+            lines.append(f"qcow2.snapwf {a} {case['view'] - 1} " + " ".join(tk))
         return lines
     t = built.t
     ids = built.info["ids"]
@@ -320,7 +325,10 @@ def model_parse(case, built, out):
         a = core.parse_stream_answer(out[0]) if out else None
         b = core.parse_stream_answer(out[1]) if len(out) > 1 else None
         ans = (a + b) if a is not None and b is not None and a[-1:] != ["E"] else a
-        return {"answers": ans, "wf": ans is not None}
+        # wf: every contributing layer — for a snapshot view: the image with the snapshot's L1 table — is conformant up
+        # to the end of the last stream buffer (`ConformantTo … (roundUp size align)`, evaluated by the driver)
+        wf = len(out) > 2 and out[2].startswith("ok") and "wf=1" in out[2]
+        return {"answers": ans, "wf": bool(ans is not None and wf)}
     ans = core.parse_stream_answer(out[0]) if out else None
     if fam == "vhdx" and not case["recipe"].get("missing"):
         chk = out[1].split() if len(out) > 1 else []
